@@ -71,6 +71,7 @@ def _run(ck: core.Check, pool):
     from harness import lib_vpprog as P
 
     rng = ck.rng
+    L.single_threaded_ort()
     # ---- oracle tasks (worker processes)
     tasks = []
     for _ in range(ck.pick(70, 700)):
@@ -85,6 +86,56 @@ def _run(ck: core.Check, pool):
     if ck.thorough:
         ck.leanchecker(["SpoxModel.Props.C07"])
 
+    try:
+        _correspond(ck, rng)
+    except Exception as e:  # noqa: BLE001 - an unobservable internal must not crash the run
+        ck.broken("correspondence", f"C07 correspondence not observable: {type(e).__name__}", core.fmt_exc())
+
+    # ---- oracle results
+    try:
+        results = pending.get(timeout=1500)
+    except Exception as e:  # noqa: BLE001
+        ck.broken("oracle", "C07 program oracle workers failed", f"{type(e).__name__}: {str(e)[:200]}")
+        results = [{"failures": [], "stats": {}, "infra": "worker pool failed"} for _ in tasks]
+    tot = {"valued": 0, "compared": 0, "derived_types": 0, "multi": 0, "infra": 0}
+    for task, r in zip(tasks, results):
+        ck.count(("prog", json.dumps(task, sort_keys=True)))
+        for k, v in r.get("stats", {}).items():
+            tot[k] = tot.get(k, 0) + v
+        if r.get("infra"):
+            tot["infra"] += 1
+            if len(ck.notes) < 5:
+                ck.notes.append(f"program case skipped: {r['infra']}"[:200])
+        for key, what in r["failures"]:
+            ck.failure(key, what, _shrink(task, key))
+    if tot["infra"] > len(tasks) // 10:
+        ck.broken("oracle", "C07 program oracle starved", f"{tot['infra']} of {len(tasks)} program cases could not be judged")
+    ck.sample({"program": tasks[0]["steps"][:6], "sel": tasks[0]["sel"]})
+    ck.cov.update({
+        "oracle_programs": len(tasks), "oracle_totals": tot,
+    })
+    ck.exhaustive = False
+    ck.rule = (
+        "seeded random constant-expression programs (constants incl. every value* attribute, initializers, arithmetic, "
+        "shape ops, Reshape/Expand/Tile/Slice targets computed from constants, TopK/Split/Unique, sequences, optionals, "
+        "inlined two-output model, If) x {REFERENCE, ONNXRUNTIME}; every valued Var compared with onnxruntime's result "
+        "under two input bindings; distinct by program text"
+    )
+    ck.assumptions += [
+        "onnxruntime's execution of the built model is the reference for 'what the model computes' (fold_correct's hypothesis: the value-prop backend agrees with the runtime on constant-fed singleton models)",
+        "unsafe_cast / unsafe_reshape are outside the model (they copy a value onto a user-declared type by contract)",
+        "type inference results are a parameter of the history model (their soundness is C05/C06; the oracle still compares all reported types with run-time results)",
+    ]
+    ck.trusted_base += [
+        "harness/lib_vpprog.py: program generator, recording sessions, value comparison (exact / 1e-6), harness/lib_valueprop.py `conforms`",
+    ]
+
+
+def _correspond(ck, rng):
+    from harness import lib_valueprop as L
+    from harness import lib_vpnodes as N
+    from harness import lib_vpprog as P
+
     # ---- tie H (1): whole histories
     hist_reqs, hist_real, hist_meta = [], [], []
     skipped = raised = 0
@@ -97,7 +148,11 @@ def _run(ck: core.Check, pool):
             fault = (rng.choice(P.FAULT_KINDS), rng.randrange(10), rng.randrange(len(L.EXC_CLASSES)))
             script = (lambda i, m, f=fault: P.make_fault(f[0], m, f[2]) if i == f[1] else None)
         at = rng.choice(["init", "run"])
-        h = P.record_history(steps, sel, script, at)
+        try:
+            h = P.record_history(steps, sel, script, at)
+        except Exception as e:  # noqa: BLE001
+            ck.broken("correspondence", f"C07 history not observable: {type(e).__name__}: {str(e)[:150]}")
+            continue
         for key, what in h.get("failures", []):  # kept_value_conforms, judged on the real run alone
             ck.failure(key, what, {"level": "hist", "steps": steps, "sel": sel, "fault": fault, "at": at})
         if "skip" in h:
@@ -113,8 +168,15 @@ def _run(ck: core.Check, pool):
     # ---- tie H (2): node-level mapping cases
     node_cases = [c for c in N.gen_cases(rng, False)
                   if c["node"]["kind"] in ("topk", "split", "inline") or c["node"].get("op") in ("topk", "split", "unique")]
-    descs = [N.describe(c) for c in node_cases]
-    reals = [N.run_case(c) for c in node_cases]
+    def safe(fn, c):
+        try:
+            return fn(c)
+        except Exception as e:  # noqa: BLE001
+            ck.broken("correspondence", f"C07 mapping case not observable: {type(e).__name__}: {str(e)[:150]}")
+            return None
+
+    descs = [safe(N.describe, c) for c in node_cases]
+    reals = [safe(N.run_case, c) for c in node_cases]
     node_reqs = [N.model_request(c, d) if d else {"fn": "bad"} for c, d in zip(node_cases, descs)]
     try:
         answers = ck.driver().ask_many("C07", hist_reqs + node_reqs)
@@ -137,7 +199,7 @@ def _run(ck: core.Check, pool):
     nm = 0
     for spec, desc, real, m in zip(node_cases, descs, reals, answers[len(hist_reqs):]):
         ck.count(("node", json.dumps(spec, sort_keys=True)))
-        if desc is None or m is None:
+        if desc is None or m is None or real is None:
             continue
         why = L.compare_outcome(m, real)
         if why:
@@ -146,42 +208,10 @@ def _run(ck: core.Check, pool):
                 ck.broken("correspondence", "C07 name->field mapping model-vs-implementation",
                           f"spec={json.dumps(spec)}: {why}")
 
-    # ---- oracle results
-    results = pending.get(timeout=1500)
-    tot = {"valued": 0, "compared": 0, "derived_types": 0, "multi": 0, "infra": 0}
-    for task, r in zip(tasks, results):
-        ck.count(("prog", json.dumps(task, sort_keys=True)))
-        for k, v in r.get("stats", {}).items():
-            tot[k] = tot.get(k, 0) + v
-        if r.get("infra"):
-            tot["infra"] += 1
-            if len(ck.notes) < 5:
-                ck.notes.append(f"program case skipped: {r['infra']}"[:200])
-        for key, what in r["failures"]:
-            ck.failure(key, what, _shrink(task, key))
-    if tot["infra"] > len(tasks) // 10:
-        ck.broken("oracle", "C07 program oracle starved", f"{tot['infra']} of {len(tasks)} program cases could not be judged")
-    ck.sample({"program": tasks[0]["steps"][:6], "sel": tasks[0]["sel"]})
     ck.cov.update({
         "history_cases": len(hist_reqs), "history_skipped": skipped, "history_mismatches": hm,
         "history_values_compared": nvals, "mapping_cases": len(node_cases), "mapping_mismatches": nm,
-        "oracle_programs": len(tasks), "oracle_totals": tot,
     })
-    ck.exhaustive = False
-    ck.rule = (
-        "seeded random constant-expression programs (constants incl. every value* attribute, initializers, arithmetic, "
-        "shape ops, Reshape/Expand/Tile/Slice targets computed from constants, TopK/Split/Unique, sequences, optionals, "
-        "inlined two-output model, If) x {REFERENCE, ONNXRUNTIME}; every valued Var compared with onnxruntime's result "
-        "under two input bindings; distinct by program text"
-    )
-    ck.assumptions += [
-        "onnxruntime's execution of the built model is the reference for 'what the model computes' (fold_correct's hypothesis: the value-prop backend agrees with the runtime on constant-fed singleton models)",
-        "unsafe_cast / unsafe_reshape are outside the model (they copy a value onto a user-declared type by contract)",
-        "type inference results are a parameter of the history model (their soundness is C05/C06; the oracle still compares all reported types with run-time results)",
-    ]
-    ck.trusted_base += [
-        "harness/lib_vpprog.py: program generator, recording sessions, value comparison (exact / 1e-6), harness/lib_valueprop.py `conforms`",
-    ]
 
 
 def replay(ck: core.Check, doc) -> bool:
